@@ -204,6 +204,18 @@ pub fn run(ctx: &Ctx) -> CheckOutput {
         for n in ns {
             let spec = mk(kind, n, Spec::echo());
             let positive = e.positive_domain;
+            if kind == Kind::LaguerreFilter {
+                for g in [0.0, 0.8] {
+                    let spec = Spec::unp(Kind::LaguerreFilter, 0, vec![g], Spec::echo());
+                    jobs.push(Box::new(move || {
+                        let mut st = Stats::default();
+                        let sink = Sink::new();
+                        check::<f64>(&spec, &Z5, if quick { 5 } else { 7 }, &mut st, &sink);
+                        check::<Q>(&spec, &Z5, if quick { 4 } else { 6 }, &mut st, &sink);
+                        JobOut { stats: st, viols: sink.take(), samples: vec![] }
+                    }));
+                }
+            }
             {
                 let spec = spec.clone();
                 jobs.push(Box::new(move || {
